@@ -38,6 +38,8 @@ SWEEP_OP = {"processor": "VMul", "derive": {"parameter_sweep": {"parameters": {"
 PIPELINES: Dict[str, List[dict]] = {
     "plain": [n("VSrc"), n("VFailIf"), n("VProbe", context_key="r"), n('template:"out_{value}.txt":path'), n("VTxtSink")],
     "two": [n("VSrc"), n("VTwo"), n("VFailIf"), n("VGainProbe", context_key="gain"), n('template:"out_{value}.txt":path'), n("VTxtSink")],
+    # a key supplied once on the command line (--context) and consumed destructively by every run: each run gets its own copy
+    "consume": [n("VSrc"), n("VFailIf"), n("rename:tagsrc:tag"), n("delete:scrap"), n("VProbe", context_key="r"), n('template:"out_{value}.txt":path'), n("VTxtSink")],
     "sweep": [n("VSrc"), SWEEP_OP, n("VSum"), n("VFailIf"), n("VProbe", context_key="r"), n('template:"out_{value}.txt":path'), n("VTxtSink")],
 }
 
@@ -51,6 +53,10 @@ def run_spaces(fail_at: Optional[int], nruns: int) -> Dict[str, dict]:
                                                             {"mode": "by_position", "context": {"a": a, "factor": [float(10 + i) for i in range(nruns)]}}]},
         "product": {"combine": "combinatorial", "blocks": [{"mode": "by_position", "context": {"value": vals[:2], "a": a[:2]}},
                                                            {"mode": "combinatorial", "context": {"factor": [3.0, 4.0][: max(1, nruns - 1)]}}]},
+        # a combinatorial block whose keys are WRITTEN in non-alphabetical order: the plan iterates keys in sorted order, last fastest
+        "product-unsorted": {"combine": "by_position", "blocks": [
+            {"mode": "combinatorial", "context": {"zeta": [1, 2], "label": ["p", "q"]}},
+            {"mode": "by_position", "context": {"value": [1.0, 2.0, 3.0, 4.0], "a": [FAIL if i == fail_at else 0.0 for i in range(4)]}}]},
         "sweepctx": {"blocks": [{"mode": "by_position", "context": {"value": vals, "a": a, "ts": [[1.0, 2.0] if i % 2 == 0 else [3.0] for i in range(nruns)]}}]},
         "csv": {"blocks": [{"mode": "by_position", "context": {"a": a}, "source": {"format": "csv", "path": "runs.csv", "select": ["value", "factor"]}}]},
         # unusual-but-legal values: non-ASCII strings, a key with a dot, booleans and nulls ride along in the run context
@@ -59,7 +65,8 @@ def run_spaces(fail_at: Optional[int], nruns: int) -> Dict[str, dict]:
     }
 
 
-COMPAT = {"plain": ["zip", "two-blocks", "product", "csv", "unicode"], "two": ["two-blocks", "product", "csv"], "sweep": ["sweepctx"]}
+PIPE_BASE_CTX: Dict[str, Dict[str, Any]] = {"consume": {"tagsrc": "T0", "scrap": 1.5}}
+COMPAT = {"consume": ["zip", "product-unsorted"], "plain": ["zip", "two-blocks", "product", "csv", "unicode", "product-unsorted"], "two": ["two-blocks", "product", "csv"], "sweep": ["sweepctx"]}
 
 
 def plan_of(rs: dict, scratch: str) -> List[dict]:
@@ -164,7 +171,8 @@ def judge_launch(pipe: str, rsname: str, nruns: int, fail_at: Optional[int], mod
     case = {"kind": "launch", "pipe": pipe, "rs": rsname, "nruns": nruns, "fail_at": fail_at, "mode": mode}
     plan = plan_of(rs, scratch)
     failing = next((i for i, r in enumerate(plan) if r.get("a") == FAIL), None)
-    res, records, files, sinks, cfg = launch(pipe, rs, scratch, mode, [])
+    base_ctx = PIPE_BASE_CTX.get(pipe, {})
+    res, records, files, sinks, cfg = launch(pipe, rs, scratch, mode, ctx_args(base_ctx))
     starts, runs, ends = split_runs(records)
 
     def bad(sig, msg):
@@ -200,8 +208,8 @@ def judge_launch(pipe: str, rsname: str, nruns: int, fail_at: Optional[int], mod
             bad("missing-foreign-key", f"run {i}: pipeline_start launch id/attempt {ps.get('run_space_launch_id')}/{ps.get('run_space_attempt')} vs {lid}/{att}")
         if ps.get("run_space_index") != i:
             bad("wrong-run-index", f"run {i}: run_space_index={ps.get('run_space_index')}")
-        if i < len(plan) and ps.get("run_space_context") != plan[i]:
-            bad("wrong-run-context", f"run {i}: run_space_context={ps.get('run_space_context')} but the plan says {plan[i]}")
+        if i < len(plan) and ps.get("run_space_context") != {**base_ctx, **plan[i]}:
+            bad("wrong-run-context", f"run {i}: run_space_context={ps.get('run_space_context')} but the plan (over the --context values {base_ctx}) says {plan[i]}")
         g = tracegrammar.check_single_run(run, returned=(failing is None or i < failing), nodes_started=len([r for r in run if r["record_type"] == "ser"]))
         if g:
             bad("run-trace-malformed|" + g[0], f"run {i}: {g[1]}")
@@ -210,7 +218,7 @@ def judge_launch(pipe: str, rsname: str, nruns: int, fail_at: Optional[int], mod
     for i, run in enumerate(runs):
         if i >= len(plan):
             break
-        sres, srecs, ssinks = standalone(pipe, plan[i], scratch)
+        sres, srecs, ssinks = standalone(pipe, {**base_ctx, **plan[i]}, scratch)
         if (sres.code == 0) != (failing is None or i < failing):
             bad("standalone-exit-differs", f"run {i}: standalone exit {sres.code}")
         a, b = strip_fk(run), strip_fk(srecs)
